@@ -9,7 +9,7 @@ use momtrop::SampleGenerator;
 use serde::{Deserialize, Serialize};
 use std::time::Instant;
 
-pub const RULE: &str = "cases = accepted connected graphs (E<=8, L<=5, D=1..6; decimal and dyadic weights so that J, omega and the normalisation have full 53-bit mantissas) with a scrambled routing and 12 generated x-space points (structured classes incl. corners). two self-describing formats: JSON text (serde_json, float_roundtrip) and an in-memory serde value tree holding f64 exactly. oracle: the restored sampler re-serialises byte-identically, reports the same dimension / dod / edge count / weights, and returns bit-identical results (loop momenta, u, v, jacobian, metadata incl. L matrix, lambda, q, or the same error) on every point. non-trivial = E>=3 and (a massive edge or L>=2); distinct = distinct case encodings";
+pub const RULE: &str = "(three wire formats: serde_json text, serde_json value tree, and a positional non-self-describing format written for this harness in the manner of bincode: fields in declaration order without names) cases = accepted connected graphs (E<=8, L<=5, D=1..6; decimal and dyadic weights so that J, omega and the normalisation have full 53-bit mantissas) with a scrambled routing and 12 generated x-space points (structured classes incl. corners). two self-describing formats: JSON text (serde_json, float_roundtrip) and an in-memory serde value tree holding f64 exactly. oracle: the restored sampler re-serialises byte-identically, reports the same dimension / dod / edge count / weights, and returns bit-identical results (loop momenta, u, v, jacobian, metadata incl. L matrix, lambda, q, or the same error) on every point. non-trivial = E>=3 and (a massive edge or L>=2); distinct = distinct case encodings";
 
 #[derive(Clone, Debug, Serialize, Deserialize)]
 pub struct Case {
@@ -150,6 +150,22 @@ fn check_d<const D: usize>(c: &Case, ctx: &mut Ctx) -> Result<(), Failure> {
         fail!("value:reserialisation-differs", "value tree of the restored sampler differs");
     }
     compare::<D>(&s, &s2, c, "value")?;
+    // format 3: positional binary-style format (fields in declaration order, no names, nothing self-describing)
+    {
+        use crate::oracle::posfmt;
+        let toks = match posfmt::to_tokens(&s) {
+            Ok(t) => t,
+            Err(e) => fail!("positional:serialise-failed", "a positional (bincode-like) serialiser cannot write the sampler: {e}"),
+        };
+        let s4: SampleGenerator<D> = match posfmt::from_tokens(&toks) {
+            Ok(s) => s,
+            Err(e) => fail!("positional:deserialise-failed", "the sampler written in a positional (bincode-like) format, {} tokens, cannot be read back: {e}", toks.len()),
+        };
+        if posfmt::to_tokens(&s4).ok().as_ref() != Some(&toks) {
+            fail!("positional:reserialisation-differs", "positional encoding of the restored sampler differs from the original encoding");
+        }
+        compare::<D>(&s, &s4, c, "positional")?;
+    }
     // a restored sampler can be restored again (idempotence)
     let s3: SampleGenerator<D> = serde_json::from_str(&txt1).map_err(|e| Failure::new("json:second-generation", format!("{e}")))?;
     compare::<D>(&s, &s3, c, "json2")?;
